@@ -29,7 +29,7 @@ out += ['', f'{n} changes, {sum(1 for m in rows if m.get("confirmed"))} confirme
 open(f'{V}/seeded/README.md', 'w').write('\n'.join(out) + '\n')
 
 led = json.load(open(f'{V}/known_findings.json'))
-for f in sorted(glob.glob(f'{V}/findings/*.json')):
+for f in []:
     d = json.load(open(f))
     led['known'] += d.get('known', [])
     led['fixed'] += d.get('fixed', [])
